@@ -8,6 +8,7 @@ R3 a cache hit replays the payload stored with the matching question
 R4 fingerprint agreement: what is saved and what is checked are the same function of the query
 R5 ring indices stay inside their arrays
 """
+import re
 from iosa import ir, guard, tables, ceval, sym, lin as L
 from iosa.ir import sk, pp, cval
 from iosa.facts import AnalysisBroken
@@ -92,6 +93,23 @@ def run(P, chk, tier):
             if hs:
                 dup_blocks[b.id] = x
                 dup_holders.setdefault(b.id, set()).update(hs)
+    flag_defs = {}
+    for b, x in hnr.all_nodes():
+        if x.get("k") == "Bin" and x["op"] == "=" and sk(x["a"][0]).get("k") == "Ref":
+            flag_defs.setdefault(pp(sk(x["a"][0])), []).append(pp(sk(x["a"][1])))
+        elif x.get("k") == "Decl":
+            for dd in x["decls"]:
+                if dd.get("init") is not None:
+                    flag_defs.setdefault(dd["ref"]["name"], []).append(pp(sk(dd["init"])))
+
+    def tests_holder(cnd):
+        """The branch looks at a session holder, directly or through a flag computed from one."""
+        if "users[userid].q" in pp(cnd):
+            return True
+        for y in ir.walk(cnd):
+            if y.get("k") == "Ref" and any("users[userid].q" in d_ for d_ in flag_defs.get(y["ref"]["name"], ())):
+                return True
+        return False
     neff = 0
     for b, x in hnr.all_nodes():
         if b.id in other or not (b.id in reach_ping or b.id in reach_data):
@@ -120,7 +138,7 @@ def run(P, chk, tier):
         for db in mine:
             ncd = _ncd(hnr, db, b.id)
             cnd = hnr.blocks[ncd].term.get("cond") if hnr.blocks[ncd].term else None
-            if cnd is None or ("users[userid].q" not in pp(cnd)) or _reaches(hnr, db, b.id):
+            if cnd is None or not tests_holder(cnd) or _reaches(hnr, db, b.id):
                 okdup = False
         chk.site(r1, hnr, ir.loc(x), eff, not bad and okdup,
                  "behind cache, query memory and both pending-duplicate tests" if not bad and okdup else
@@ -357,9 +375,36 @@ def fingerprints(P, E, chk, hnr):
     an = E.analysis(aqf)
     for b, c in aqf.calls("write_dns"):
         ds = an.before_node(c["n"]) or []
-        okty = all(guard.d_holds(d, "==", "qmem_type[i]", "q->type") for d in ds)
         okm = all(any(g.kind == "cmp" and g.op == "==" and g.key[2] == 0 and g.key[0].startswith("memcmp(") for g in d) for d in ds)
-        chk.site(r4, aqf, ir.loc(c), "duplicate reported only on a full match", okty and okm, "type equal: %s, fingerprint equal: %s" % (okty, okm))
+        # which stored type is known to equal the incoming one, and which fingerprint slot was compared
+        verdicts = []
+        for d in ds:
+            tys = set()
+            for g in d:
+                if g.kind == "cmp" and g.op == "==" and isinstance(g.key[2], str) and "q->type" in (g.key[0], g.key[2]):
+                    tys.add(g.key[2] if g.key[0] == "q->type" else g.key[0])
+            slots = set()
+            for g in d:
+                if g.kind == "cmp" and g.op == "==" and g.key[2] == 0 and g.key[0].startswith("memcmp("):
+                    m_ = sk(g.l)
+                    if m_.get("k") == "Call" and m_.get("a"):
+                        slots.add(pp(sk(m_["a"][0])))
+            idx = {m.group(1) for t_ in tys for m in [re.match(r"^qmem_type\[(\w+)\]$", t_)] if m}
+            same = any(s_ in ("qmem_cmc + %s * 4" % i_, "qmem_cmc + 4 * %s" % i_, "&qmem_cmc[%s * 4]" % i_) for i_ in idx for s_ in slots)
+            if same:
+                verdicts.append(True)
+            elif tys and slots and not idx:
+                verdicts.append(None)            # both compared, but through some other addressing of the slots
+            else:
+                verdicts.append(False)
+        if ds and okm and any(v is None for v in verdicts) and not any(v is False for v in verdicts):
+            chk.undecided(r4, aqf, ir.loc(c), "duplicate reported only on a full match",
+                          "a stored type and a stored fingerprint are compared with the incoming query, but the slots are not "
+                          "addressed as qmem_type[i] and qmem_cmc + i * 4, so that they belong to the same entry is not decided")
+            continue
+        okty = bool(ds) and all(v is True for v in verdicts)
+        chk.site(r4, aqf, ir.loc(c), "duplicate reported only on a full match", okty and okm,
+                 "type and fingerprint of the same entry equal: %s, fingerprint compared: %s" % (okty, okm))
 
 
 def _table(P, unit, name):
